@@ -160,12 +160,14 @@ class ProjectedGradient(LinearOperator):
 
         if self.cdiff:
             grad = snp.gradient(x, axis=self.axes)
+            if len(self.axes) == 1:
+                grad = [grad]  # a single array, not a list, is returned for a single axis
         else:
             grad = diffstack(x, axis=self.axes)
         if self.coord is None:
             # If coord attribute is None, just return gradients on specified axes.
             if len(self.axes) == 1:
-                return grad
+                return grad[0]
             else:
                 return snp.blockarray(grad)
         else:
